@@ -507,20 +507,28 @@ class TaskScenario(ScenarioData):
 
                                 dep_time = dep_time + timedelta(hours=gap_hours)
                             elif gaplength:
-                                # gaplength is working time - need to find next working slot after gap
-                                gap_hours = self._parse_duration(gaplength)
-                                gap_slots = int(gap_hours)  # Each slot is 1 hour
+                                # gaplength is working time of the project calendar: the bound is the
+                                # instant at which that much working time has passed since dep_time
+                                # (counted in seconds, not in whole slots from the start of the slot
+                                # dep_time lies in: the task must not start before dep_time itself)
+                                from datetime import timedelta
+
+                                remaining = round(self._parse_duration(gaplength) * 3600)
+                                granularity = int(self.project["scheduleGranularity"])
                                 dep_time_idx = self.project.dateToIdx(dep_time)
-                                # Skip gap_slots of working time
-                                working_slots = 0
                                 # Beyond the horizon nothing is working time: stop there (the
                                 # task is then reported as not fitting) instead of looping for ever
                                 horizon_idx = self.project.dateToIdx(self.project["end"])
-                                while working_slots < gap_slots and dep_time_idx <= horizon_idx:
+                                while remaining > 0 and dep_time_idx <= horizon_idx:
+                                    slot_start = self.project.idxToDate(dep_time_idx)
                                     if self.isWorkingTime(dep_time_idx):
-                                        working_slots += 1
+                                        usable = granularity - int((dep_time - slot_start).total_seconds())
+                                        if usable >= remaining:
+                                            dep_time = dep_time + timedelta(seconds=remaining)
+                                            break
+                                        remaining -= usable
                                     dep_time_idx += 1
-                                dep_time = self.project.idxToDate(dep_time_idx)
+                                    dep_time = self.project.idxToDate(dep_time_idx)
                             if dep_time > earliest_start:
                                 earliest_start = dep_time
 
